@@ -84,6 +84,43 @@ mod imp {
         }
     }
 
+    /// static opcode histogram of the programs in FILE compiled at -O0 (println lines dropped: the
+    /// compile-only pipeline does not know the stdlib globals); cache words after call opcodes skipped
+    pub fn opcodes(file: &str) {
+        use aelys_opt::OptimizationLevel;
+        let text = std::fs::read_to_string(file).expect("read");
+        let mut hist = [0u64; 256];
+        let mut failed = 0u64;
+        fn walk(f: &Function, hist: &mut [u64; 256]) {
+            let bc = f.bytecode.as_slice();
+            let mut i = 0;
+            while i < bc.len() {
+                let op = (bc[i] >> 24) as u8;
+                hist[op as usize] += 1;
+                i += if matches!(op, 77..=81 | 104) { 3 } else { 1 };
+            }
+            for n in &f.nested_functions { walk(n, hist); }
+        }
+        for p in text.split("\n=====\n") {
+            let src: String = p.lines().filter(|l| !l.trim_start().starts_with("println(")).collect::<Vec<_>>().join("\n");
+            let r = guarded(std::panic::AssertUnwindSafe(|| {
+                aelys_driver::pipeline::compilation_pipeline_with_opt(OptimizationLevel::None).compile_str("<verif>", &src)
+            }));
+            match r {
+                Ok(Ok((f, _heap))) => walk(&f, &mut hist),
+                _ => failed += 1,
+            }
+        }
+        println!("#failed {}", failed);
+        for (op, n) in hist.iter().enumerate() {
+            if *n > 0 {
+                let known = op <= 121 || (130..=179).contains(&op);
+                let name = if known { OpCode::from_u8(op as u8).map(|o| format!("{:?}", o)).unwrap_or_else(|| format!("op{}", op)) } else { format!("op{}", op) };
+                println!("OPC\t{}\t{}", name, n);
+            }
+        }
+    }
+
     pub fn run(file: &str) {
         let opts: Vec<u32> = arg("--opts").unwrap_or("0,1,2,3".into()).split(',').filter_map(|s| s.parse().ok()).collect();
         let budget = arg_u64("--budget", 300_000);
@@ -111,6 +148,8 @@ fn main() {
         imp::select();
     } else if let Some(f) = hxlib::arg("--run") {
         imp::run(&f);
+    } else if let Some(f) = hxlib::arg("--opcodes") {
+        imp::opcodes(&f);
     } else {
         eprintln!("usage: hx_c06 --select | --run FILE [--opts 0,1,2,3] [--budget N]");
         std::process::exit(2);
